@@ -12,7 +12,10 @@ contractions (`_coset_probabilities` of PlanarMPSDecoder, PlanarRMPSDecoder, Rot
 RotatedPlanarRMPSDecoder, Color666MPSDecoder; `_coset_probability` of PlanarYDecoder) return, for the coset of each of
 their four (two) recoveries, the exact rational value of the Lean `cosetProb` (`yCosetProb`) within relative 1e-11, in
 every mode c / r / a, with stp unset / 0.5 / 1.0, chi = tol = None, and that `decode` returns a recovery with the input
-syndrome whose logical class is the exact arg-max wherever the exact relative gap exceeds 1e-9.  "Exactly the total
+syndrome whose logical class is the exact arg-max wherever the exact relative gap exceeds 1e-9 — for weak AND strong
+noise (p up to 0.95, distributions whose likeliest Pauli is not I: there the likeliest coset of the ZERO syndrome is a
+logical coset on most codes), with the zero and the single-defect syndromes always among the inputs of every decoder
+and mode (`special_cases`).  "Exactly the total
 probability" holds in exact arithmetic only; the code works in floats — this check bounds the discrepancy on the
 explored inputs, it does not prove it.  Standard vs rotated networks and by-column vs by-row are compared with the same
 exact value, hence with each other.  The Lean value itself is cross-checked, for codes of at most 8 qubits, with an
@@ -28,6 +31,7 @@ REAL code's stabilizer matrix (`cosets` op) and on the model's `Planar.stabilize
 theorem `planar_tn_value`).  Theorems (Props/C10/Network.lean): `factor_graph_identity` (generic) and the planar
 instance; see that file for what is proved and what is only stated.
 """
+import importlib
 import json
 import math
 from fractions import Fraction
@@ -43,8 +47,14 @@ RULE = ('codes: planar RxC, rotated planar RxC, colour 6.6.6 with stabilizer gro
         'the harness sends the REAL code.stabilizers / code.logicals and the decoder\'s own sample recovery; syndromes: '
         'all of them where the tier budget allows (flagged per code in input_distribution.exhaustive_codes), else '
         'uniformly sampled; distributions: depolarizing, Z/X/Y-biased (eta 3..300), bit-flip / phase-flip / pure-Y with '
-        'exact zeros, random, p in 0.01..0.4, entries on the 2^-16 grid (exactly representable floats) plus the raw '
-        'floats of qecsim error models; decoders x modes c/r/a x stp None/0.5/1.0, chi=tol=None; one case = one '
+        'exact zeros, random, one dominant non-identity Pauli (0.1, 0.7, 0.1, 0.1), any point of the simplex, p in '
+        '0.01..0.95, entries on the 2^-16 grid (exactly representable floats) plus the raw floats of qecsim error '
+        'models; on top of the sampled syndromes, ALWAYS, for every code and every decoder x mode of its family: the '
+        'zero syndrome and every single-defect syndrome (codes with >= 13 (thorough: 15) generators: zero + 5 random '
+        'ones (thorough: + 1 or 0)) under >= 1 strong-noise distribution (p >= 0.5, the first with a non-identity '
+        'Pauli most likely: the exact arg-max coset of the zero syndrome is then a logical coset on most codes, '
+        'histogram zero_syndrome_argmax) and one weak one; Y decoder: no-error and every single-Y-error syndrome '
+        '(n > 14: two), also at p >= 0.5; decoders x modes c/r/a x stp None/0.5/1.0, chi=tol=None; one case = one '
         '(code, syndrome, distribution) with the group of real decoder configurations run on it; a case passes iff '
         'every recorded coset probability is within rel 1e-11 of the exact Lean rational, the four recoveries carry '
         'the syndrome and lie in four distinct logical cosets, and decode returns the exact arg-max class when the '
@@ -320,6 +330,11 @@ def make_dist(rng, kind, p):
         px, py, pz = p * (1 - p), p * p, p * (1 - p)
     elif kind == 'noy':
         px, py, pz = p / 2, 0, p / 2
+    elif kind.startswith('dom'):  # ONE Pauli carries p, the others (I included) share the rest: (0.1, 0.7, 0.1, 0.1)
+        px, py, pz = [(p if a == kind[3] else (1 - p) / 3) for a in 'XYZ']
+    elif kind == 'simplex':  # any point of the simplex (p unused): I need not be the most likely Pauli
+        w = [rng.random() + 0.02 for _ in range(4)]
+        px, py, pz = [x / sum(w) for x in w[1:]]
     else:  # random
         w = [rng.random() for _ in range(3)]
         t = sum(w)
@@ -331,8 +346,13 @@ def make_dist(rng, kind, p):
 
 
 KINDS = ['depolarizing', 'biasZ10', 'biasX10', 'biasY10', 'biasZ100', 'biasX3', 'biasY300', 'bitflip', 'phaseflip',
-         'bitphaseflip', 'xz', 'noy', 'random', 'random']
-PS = [0.01, 0.03, 0.05, 0.1, 0.15, 0.2, 0.3, 0.4]
+         'bitphaseflip', 'xz', 'noy', 'random', 'random', 'domX', 'domY', 'domZ', 'simplex']
+# the property quantifies over ALL single-qubit distributions: weak noise, and strong noise where the identity coset
+# is no longer the likeliest one for the zero syndrome (depolarizing p > 3/4, biased p > 1/2, a dominant non-I Pauli)
+PS_STRONG = [0.5, 0.6, 0.7, 0.8, 0.9, 0.95]
+PS = [0.01, 0.03, 0.05, 0.1, 0.15, 0.2, 0.3, 0.4] + PS_STRONG
+STRONG_KINDS = ['depolarizing', 'biasX10', 'biasZ10', 'biasY10', 'biasZ100', 'biasX3', 'domX', 'domY', 'domZ',
+                'bitflip', 'phaseflip', 'bitphaseflip', 'xz', 'noy', 'random', 'simplex']
 
 
 def raw_model_dists():
@@ -349,15 +369,15 @@ def plan(ctx):
     q = ctx.quick()
     P = []
     # planar
-    P += [('planar', (2, 2), None, 8 if q else 30, 4 if q else 18)]
-    P += [('planar', s, None if not q else 48, 2 if q else 6, 3 if q else 6) for s in [(2, 3), (3, 2)]]
-    P += [('planar', s, 24 if q else 400, 2, 3 if q else 6) for s in [(2, 4), (4, 2)]]
-    P += [('planar', (3, 3), 40 if q else 900, 2 if q else 1, 3 if q else 2)]
+    P += [('planar', (2, 2), None, 8 if q else 18, 4 if q else 18)]
+    P += [('planar', s, None if not q else 48, 2 if q else 4, 3 if q else 6) for s in [(2, 3), (3, 2)]]
+    P += [('planar', s, 24 if q else 350, 2, 3 if q else 6) for s in [(2, 4), (4, 2)]]
+    P += [('planar', (3, 3), 40 if q else 800, 2 if q else 1, 3 if q else 2)]
     P += [('planar', s, 6 if q else 60, 1, 3 if q else 6) for s in [(2, 5), (5, 2)]]
     if not q:
         P += [('planar', s, 4, 1, 6) for s in [(3, 4), (4, 3), (2, 6), (6, 2)]]
     # rotated planar
-    P += [('rotatedplanar', (3, 3), 64 if q else None, 2 if q else 5, 3 if q else 6)]
+    P += [('rotatedplanar', (3, 3), 64 if q else None, 2 if q else 4, 3 if q else 6)]
     P += [('rotatedplanar', s, 16 if q else 300, 2 if q else 1, 3 if q else 6) for s in [(3, 4), (4, 3)]]
     P += [('rotatedplanar', s, 3 if q else 30, 1, 3 if q else 6) for s in [(3, 5), (5, 3)]]
     if not q:
@@ -385,6 +405,44 @@ def syndromes_for(ctx, n_bits, count):
         seen.add(i)
         out.append([(i >> (n_bits - 1 - j)) & 1 for j in range(n_bits)])
     return out, False
+
+
+def special_cases(ctx, fam, size, code, label):
+    """the inputs that are cheapest to special-case in a decoder — the ZERO syndrome and the single-defect syndromes —
+    are always run, on every code of the plan, through EVERY decoder and mode of the family (planar stp: rotating
+    with the syndrome; all three values on codes with <= 8 generators in the thorough tier), under strong-noise
+    distributions (the first one always has a non-identity Pauli as the most likely one) and a weak one.  Under strong
+    noise the likeliest coset of the zero syndrome is a LOGICAL coset on most codes (counted in zero_syndrome_argmax),
+    so `decode` must really take the arg-max.  The exact value costs an enumeration of 4 * 2^r group elements per
+    syndrome, so: EVERY single-defect syndrome on codes with r <= 12 generators (thorough: r <= 14 under the strong
+    distribution); above that zero + a random five (strong) / two (weak), and in the thorough tier for r >= 15
+    (seconds per value) zero (+ one for r = 15) under the strong distribution only — their zero syndrome is also in
+    the main sample."""
+    rng, q = ctx.rng, ctx.quick()
+    r = len(code.stabilizers)
+    singles = [[int(i == j) for j in range(r)] for i in range(r)]
+    zero = [0] * r
+    cfgs_all = all_configs(fam)
+    n_more = (5 if r <= 6 else 2 if r <= 8 else 0) if q else (3 if r <= 8 else 1 if r <= 12 else 0)
+    n_strong, n_weak = ((r, r) if r <= 12 else (5 if q else r, 2) if r <= 14 else (5, 2) if q else
+                        (1 if r <= 15 else 0, None))
+    kinds = ['dom' + rng.choice('XYZ')] + [rng.choice(STRONG_KINDS) for _ in range(n_more)]
+    dists = [('strong-' + k, make_dist(rng, k, rng.choice(PS_STRONG[1:] if k.startswith('dom') else PS_STRONG)),
+              [zero] + rng.sample(singles, n_strong)) for k in kinds]
+    if n_weak is not None:
+        weak = rng.choice(['depolarizing', 'biasZ10', 'biasX10', 'biasY10', 'xz', 'random'])
+        dists.append((weak, make_dist(rng, weak, rng.choice(PS[:8])), [zero] + rng.sample(singles, n_weak)))
+    for di, (kind, dist, ss) in enumerate(dists):
+        for si, syndrome in enumerate(ss):
+            if fam == 'planar' and (q or r > 8):
+                stp = (None, 1.0, 0.5)[(si + di) % 3]
+                cfgs = [c for c in cfgs_all if c[2] == stp]
+            else:
+                cfgs = cfgs_all
+            group_case(ctx, fam, size, code, syndrome, kind, dist, cfgs)
+            ctx.count('code', label); ctx.count('dist_kind', kind)
+            ctx.count('special_syndrome', 'single-defect' if any(syndrome) else 'zero')
+    ctx.flush()
 
 
 # ------------------------------------------------------------------------------------------------ run
@@ -420,6 +478,11 @@ def group_case(ctx, fam, size, code, syndrome, kind, dist, cfgs, table=None):
             if len(nums) != 4:
                 return 'bad-reply ' + reply[:60]
             res = [l + '=' + verdict(code, syndrome, dist, D, n, r, nums) for l, (cfg, r) in zip(labels, grp)]
+            if not any(syndrome) and max(nums) > 0:
+                # which coset is the exact arg-max for the zero syndrome: the stabilizer group itself or a logical coset
+                ci = logical_class(code, [0] * (2 * n), grp[0][1]['f'])
+                ctx.count('zero_syndrome_argmax',
+                          fam + (':identity-coset' if nums[ci] == max(nums) else ':logical-coset'))
             if table is not None:
                 # exact equality with the independent enumeration of all 4^n errors: the class of an error e
                 # relative to the sample f is the class of e ⊕ f
@@ -482,12 +545,14 @@ def run(ctx):
                 ctx.count('code', label); ctx.count('dist_kind', kind)
                 n_cases += 1
         ctx.flush()
+        special_cases(ctx, fam, size, code, label)
     y_cases(ctx)
     tn_cases(ctx)
     ctx.extra['exhaustive_codes'] = exhaustive_codes
     ctx.extra['worst_relative_deviation'] = dict(WORST)
     if getattr(ctx, 'nolean', False):
         print('[dev] worst relative deviation', WORST, 'real decodes', ctx.extra.get('real_decodes'))
+        print('[dev] specials', dict(ctx.hist['special_syndrome']), dict(ctx.hist['zero_syndrome_argmax']))
     ctx.exhaustive = False
     ctx.explored = {
         'float-vs-exact coset probabilities and arg-max class of the real decoders': {
@@ -504,6 +569,14 @@ def run(ctx):
                     'where the stabilizer group has <= 2^17 elements (quick) / 2^22 (thorough), else the real float '
                     'contraction within rel 1e-11 of the model value',
             'exhaustive': False}}
+    # further decoder networks inside the model (one helper module each: tensors of the real create_tn == model tensors,
+    # model contraction == exact coset probability)
+    for name in NETWORK_HELPERS:
+        mod = importlib.import_module('qv.' + name)
+        before = ctx.evaluations
+        mod.cases(ctx)
+        ctx.explored[name + '_network_tie'] = {'evaluations': ctx.evaluations - before, 'exhaustive': False,
+                                               'rule': (mod.__doc__ or '').strip().split('\n')[0][:300]}
     return ctx.finish(RULE, search=search, explanation=(
         'spec theorems proved in Lean; the numerical agreement of the float/mpf contractions with the spec is bounded '
         'on the explored inputs only (see explored)'))
@@ -638,13 +711,19 @@ def y_cases(ctx):
         else:
             errs = [[0] * n] + [[int(rng.random() < rng.choice([0.1, 0.3, 0.5])) for _ in range(n)]
                                 for _ in range(n_syn - 1)]
-        syns = sorted({tuple(int(x) for x in pt.bsp(np.array(e + e), code.stabilizers.T)) for e in errs})
-        for j in range(n_dist):
-            p = rng.choice(PS)
+        # the cheapest inputs to special-case — no error and every single-qubit Y error (n > 14: two of them) — are
+        # always there, and are run once more under strong noise (p >= 1/2: the all-Y operator beats the identity)
+        single = [[int(i == j) for j in range(n)] for i in range(n)]
+        special = sorted({tuple(int(x) for x in pt.bsp(np.array(e + e), code.stabilizers.T))
+                          for e in [[0] * n] + (single if n <= 14 else rng.sample(single, 2))})
+        syns = sorted({tuple(int(x) for x in pt.bsp(np.array(e + e), code.stabilizers.T)) for e in errs}
+                      | set(special))
+        for j in range(n_dist + 1):
+            p = rng.choice(PS if j < n_dist else PS_STRONG)
             dist = make_dist(rng, 'bitphaseflip', p) if j or size != (2, 2) else \
                 tuple(__import__('qecsim.models.generic', fromlist=['x']).BitPhaseFlipErrorModel()
                       .probability_distribution(0.1))
-            for s in syns:
+            for s in (syns if j < n_dist else special):
                 y_case(ctx, size, code, list(s), dist)
                 ctx.count('code', 'planar-y{}x{}'.format(*size)); ctx.count('dist_kind', 'pure-Y')
         ctx.flush()
@@ -883,10 +962,17 @@ def evaluate_input(meta):
     return None
 
 
+NETWORK_HELPERS = ['c10_rplanar']
+
+
 def search(m):
     meta = m.get('meta')
     if not meta or 'family' not in meta:
         return None
+    for name in NETWORK_HELPERS:
+        mod = importlib.import_module('qv.' + name)
+        if meta.get('family') == getattr(mod, 'FAMILY', None):
+            return mod.search(m)
     return evaluate_input(meta)
 
 
